@@ -33,7 +33,7 @@ type jtracer struct {
 	subs   map[any]string
 	msgs   map[any]string
 	downs  map[any]string
-	yield  int // 0 none, 1 light, 2 heavy
+	yield  int               // 0 none, 1 light, 2 heavy
 	steer  *steerer          // when set, every event is a gate of the behaviour being replayed (joesteer.go)
 	pids   map[string]string // IDs given by an ID-assigning replayer, by message name
 }
@@ -183,7 +183,7 @@ type jw struct {
 	nSend     int
 	nFlush    int
 	cancel    context.CancelFunc
-	cof       bool // a failing call cancels the subscriber's own context, as net/http does on a write error
+	cof       bool          // a failing call cancels the subscriber's own context, as net/http does on a write error
 	gate      chan struct{} // when set, the first Send blocks until the driver releases it (a slow client)
 	entered   chan struct{}
 }
